@@ -177,6 +177,12 @@ fn create_chess_move_from_uci(uci: &str, board: &Board) -> ChessMove {
     }
 }
 
+/// Exposes the private UCI move parser to the verification harness.
+#[cfg(chess_verif)]
+pub fn verif_create_chess_move_from_uci(uci: &str, board: &Board) -> ChessMove {
+    create_chess_move_from_uci(uci, board)
+}
+
 fn is_elo_determined(wins: usize, _losses: usize, total_games: usize) -> bool {
     total_games >= GAMES_PER_ELO && (wins as f32 / total_games as f32 - 0.5).abs() < 0.1
 }
